@@ -629,6 +629,92 @@ def _unroll_block(M, fn, stmts: List[ast.stmt], changed: List[str], top=None) ->
     return out
 
 
+# ------------------------------------------------------------------ tables of constructor rows
+def _row_fields(M, fn, call: ast.Call) -> Optional[List[str]]:
+    """field names, in positional order, of the NamedTuple / dataclass a row constructor call builds"""
+    r = M.resolve_expr(fn.mod, call.func, fn.cls) if isinstance(call.func, (ast.Name, ast.Attribute)) else None
+    if not r or r[0] != "class" or r[1] not in M.classes:
+        return None
+    c = M.classes[r[1]]
+    bases = [ast.unparse(b).split(".")[-1] for b in c.node.bases]
+    decos = [ast.unparse(d).split("(")[0].split(".")[-1] for d in c.node.decorator_list]
+    if "NamedTuple" not in bases and "dataclass" not in decos:
+        return None
+    return [st.target.id for st in c.node.body if isinstance(st, ast.AnnAssign) and isinstance(st.target, ast.Name)]
+
+
+def _expand_row_tables(M, fn, node: ast.FunctionDef, changed: List[str]) -> None:
+    """ROWS = [Row(a1, b1), Row(a2, b2)] (a local bound once, never mutated);  (E(g) for g in ROWS)  ->  (E(row1), E(row2)) with
+    g.field replaced by the row's argument.  Then chain.from_iterable((x1, x2)) -> [*x1, *x2], list([..]) -> [..] and
+    *repeat(c, n) -> *[c] * n, so that a table-driven writer reads like the parallel displays it replaced."""
+    tables = {}
+    for st in node.body:
+        if isinstance(st, ast.Assign) and len(st.targets) == 1 and isinstance(st.targets[0], ast.Name) and isinstance(st.value, (ast.List, ast.Tuple)) and \
+                st.value.elts and all(isinstance(e, ast.Call) and not any(isinstance(a, ast.Starred) for a in e.args) for e in st.value.elts):
+            nm = st.targets[0].id
+            stores = [n for n in ast.walk(node) if isinstance(n, ast.Name) and n.id == nm and isinstance(n.ctx, (ast.Store, ast.Del))]
+            mutated = any(isinstance(n, ast.Call) and isinstance(n.func, ast.Attribute) and isinstance(n.func.value, ast.Name) and
+                          n.func.value.id == nm and n.func.attr in ("append", "extend", "insert", "pop", "remove", "sort", "reverse", "clear")
+                          for n in ast.walk(node))
+            if len(stores) != 1 or mutated or len(st.value.elts) > 16:
+                continue
+            fields = [_row_fields(M, fn, e) for e in st.value.elts]
+            if any(f is None for f in fields) or len({tuple(f) for f in fields}) != 1:
+                continue
+            rows = []
+            for e in st.value.elts:
+                vals = dict(zip(fields[0], e.args))
+                vals.update({k.arg: k.value for k in e.keywords if k.arg})
+                rows.append(vals)
+            if all(set(r_) == set(fields[0]) for r_ in rows):
+                tables[nm] = rows
+    if not tables:
+        return
+
+    class T(ast.NodeTransformer):
+        def _comp(self, n):
+            n = self.generic_visit(n)
+            if len(n.generators) == 1 and not n.generators[0].ifs and isinstance(n.generators[0].iter, ast.Name) and \
+                    n.generators[0].iter.id in tables and isinstance(n.generators[0].target, ast.Name):
+                g = n.generators[0].target.id
+                elts = []
+                for row in tables[n.generators[0].iter.id]:
+                    class Sub(ast.NodeTransformer):
+                        def visit_Attribute(self, a, row=row):
+                            if isinstance(a.value, ast.Name) and a.value.id == g and a.attr in row:
+                                return ast.copy_location(copy.deepcopy(row[a.attr]), a)
+                            return self.generic_visit(a)
+                    e = Sub().visit(copy.deepcopy(n.elt))
+                    if any(isinstance(x, ast.Name) and x.id == g for x in ast.walk(e)):
+                        return n          # the row object itself is used: leave the comprehension alone
+                    elts.append(e)
+                changed.append("rows")
+                return ast.copy_location(ast.Tuple(elts=elts, ctx=ast.Load()), n)
+            return n
+
+        visit_GeneratorExp = _comp
+        visit_ListComp = _comp
+
+        def visit_Call(self, n):
+            n = self.generic_visit(n)
+            f = ast.unparse(n.func)
+            if f in ("chain.from_iterable", "itertools.chain.from_iterable") and len(n.args) == 1 and isinstance(n.args[0], (ast.Tuple, ast.List)):
+                return ast.copy_location(ast.List(elts=[ast.Starred(value=x, ctx=ast.Load()) for x in n.args[0].elts], ctx=ast.Load()), n)
+            if f in ("list", "tuple") and len(n.args) == 1 and not n.keywords and isinstance(n.args[0], ast.List):
+                return n.args[0]
+            return n
+
+        def visit_Starred(self, n):
+            n = self.generic_visit(n)
+            v = n.value
+            if isinstance(v, ast.Call) and ast.unparse(v.func) in ("repeat", "itertools.repeat") and len(v.args) == 2 and not v.keywords:
+                n.value = ast.copy_location(ast.BinOp(left=ast.List(elts=[v.args[0]], ctx=ast.Load()), op=ast.Mult(), right=v.args[1]), v)
+            return n
+    for i, st in enumerate(node.body):
+        if not isinstance(st, (ast.FunctionDef, ast.ClassDef)):
+            node.body[i] = T().visit(st)
+
+
 # ------------------------------------------------------------------ dict dispatch
 def _dict_node(M, fn, top: ast.FunctionDef, e: ast.AST) -> Optional[ast.Dict]:
     """the dict display a name denotes: a local assigned once (never mutated), or a module / class level literal"""
@@ -1311,6 +1397,7 @@ def normalise(M, fn, subst: bool = False, guards: bool = False, keep=(), comps: 
         locs = _locals_of(node)
         node.body = _inline_gen_loops(M, fn, node.body, locs, changed)
         node.body = _inline_block(M, fn, node.body, locs, changed, 0)
+        _expand_row_tables(M, fn, node, changed)
         node.body = _unroll_block(M, fn, node.body, changed, node)
         node.body = _expand_dispatch(M, fn, node, node.body, changed)
         node.body = _fold_const_ifs(node.body)
